@@ -89,24 +89,29 @@ theorem subscribeLoop_inv (conn : Nat) (wp : Bool) (names : List Bytes) :
     · apply ih
       exact ⟨by unfold NamesDistinct; rw [subFirst_names]; exact h.1, subFirst_subsNodup conn n t h.2⟩
     · rename_i hn
-      split
-      · exact h
-      · apply ih
-        constructor
-        · unfold NamesDistinct
-          simp only [List.map_append, List.map_cons, List.map_nil, List.nodup_append]
-          refine ⟨h.1, by simp, ?_⟩
-          intro a ha b hb
-          simp at hb
-          subst hb
-          intro e
-          subst e
-          exact not_mem_names_of_hasName t a (by simpa using hn) ha
-        · intro x hx
-          simp at hx
-          rcases hx with hx | rfl
-          · exact h.2 x hx
-          · simp
+      apply ih
+      constructor
+      · unfold NamesDistinct
+        simp only [List.map_append, List.map_cons, List.map_nil, List.nodup_append]
+        refine ⟨h.1, by simp, ?_⟩
+        intro a ha b hb
+        simp at hb
+        subst hb
+        intro e
+        subst e
+        exact not_mem_names_of_hasName t a (by simpa using hn) ha
+      · intro x hx
+        simp at hx
+        rcases hx with hx | rfl
+        · exact h.2 x hx
+        · simp
+
+theorem subscribe_inv (conn : Nat) (wp : Bool) (names : List Bytes) (t : Table) (h : Inv t) :
+    Inv (subscribe conn wp names t).1 := by
+  unfold subscribe
+  split
+  · exact h
+  · exact subscribeLoop_inv conn wp names 0 t [] h
 
 theorem unsubWhere_names (conn : Nat) (sel : Chan → Bool) (t : Table) :
     (unsubWhere conn sel t).1.map (·.name) = t.map (·.name) := by
@@ -147,7 +152,7 @@ theorem unsubGlobs_inv (conn : Nat) (ps : List Bytes) : ∀ (t : Table) (acc : L
     intro t acc h
     unfold unsubGlobs
     split
-    · exact h
+    · exact ih _ _ h
     · exact ih _ _ (unsubWhere_inv conn _ t h)
 
 theorem unsubscribe_inv (conn : Nat) (wp : Bool) (names : List Bytes) (t : Table) (h : Inv t) :
@@ -203,7 +208,9 @@ theorem exec_inv (t : Table) (conn : Nat) (c : Cmd) (h : Inv t) : Inv (exec t co
     · exact h
     · split
       · exact h
-      · exact subscribeLoop_inv conn wp args 0 t [] h
+      · split
+        · exact h
+        · exact subscribe_inv conn wp args t h
   | unsub wp args => exact unsubscribe_inv conn wp args t h
   | publish args =>
     simp only [exec]
